@@ -105,3 +105,12 @@ package xpull
 //@   ensures result.Self == 81 && result.Peer == 80 && result.SelfName == "pull" && result.PeerName == "push"
 //@
 // ---- end generated Info contracts ----
+
+// ---- generated wrapper contracts (tools/gen_wrapper_contracts.py) ----
+//@ func NewSocket
+//@   ghost pr = result at call:NewProtocol#1
+//@   ghost so = result at call:MakeSocket#1
+//@   before call:NewProtocol#1 assert callee_is("protocol/xpull.NewProtocol")
+//@   before call:MakeSocket#1 assert arg0 == pr
+//@   ensures isnil(result1) && result0 == so
+// ---- end generated wrapper contracts ----
